@@ -11,14 +11,15 @@ from concurrent.futures import ThreadPoolExecutor
 PROP = "C15"
 META = {
  "engine": "S-scheduler",
- "text": "Coq theorems (Props/C15.v, closed under the global context) prove for EVERY finite stream of control points (any values, any durations, any ticks_per_beat, linear and cosine mode, any event-count limit): the trace of the track is the first value followed by, for each consecutive pair of points, the D_i values v_i + (v_next - v_i) f(j/D_i), j = 1..D_i (f = id or (1 - cos(pi x))/2), hence exactly one control call on each of the 1 + sum D_i ticks and none after; each point is hit exactly (cos pi = -1), values stay between the segment's end points (-1 <= cos <= 1), zero-length points contribute no tick (jump), non-numeric fields and numeric fields equal at both ends are emitted unchanged, and a segment with a non-control end raises InvalidEventException without a call; durations within 5e-9 of a whole number of ticks count as that number. The model is a transcription of PInterpolate.__next__, PDict.__next__ and the interpolating branch of Track.tick as state machines and is tied to the repository on every run: several hundred tracks (8 resolutions, 2-8 points, rising/falling ints and floats, segment lengths 0/1/2/5/29/57/N/3N, float-awkward durations, quantize/delay/count, looping patterns, string controls, mixed-in non-control events) are run on a real Timeline tick by tick and every control() call (tick index exact; values exact where the exact value is a double, else 1e-9) is compared inside Coq (vm_compute) with the model's trace; an independent closed-form oracle in Fractions judges each implementation trace and supplies the failing input. Second round - the timeline's resolution is re-configured AFTER the track was scheduled (timeline.ticks_per_beat = n, timeline.clock_source = <clock with another resolution>, timeline.clock_source.ticks_per_beat = n; before the track's first tick - started at once or by quantize/delay -, between two segments, on a planning tick, in the middle of a segment; once or twice; finer, coarser, multiples, divisors, the same value): Sched/InterpRetime.v carries the resolution in the state of a history of ticks and changes (rt_trace; runv = tick k made at the resolution R k, R arbitrary) and the theorems C15_retime_* prove for EVERY such history that a segment is planned with D = round(duration x the resolution in force on its planning tick) steps (the first segment on the track's first tick, every later one on the tick after its starting point was sent), sends one message per tick, follows the curve formula with that D, hits its end point exactly and keeps its plan whatever the resolution does while it is under way (C15_retime_plan_kept); about a hundred such tracks are run on a real Timeline, judged by the oracle (D_i = duration_i x the resolution in force when segment i begins) and compared with the model (timeline_runv, in which the timeline's time advances by exactly one tick of the resolution in force, as the repaired Timeline.tick does: no snapping onto the new grid).",
+ "text": "Coq theorems (Props/C15.v, closed under the global context) prove for EVERY finite stream of control points (any values, any durations, any ticks_per_beat, linear and cosine mode, any event-count limit): the trace of the track is the first value followed by, for each consecutive pair of points, the D_i values v_i + (v_next - v_i) f(j/D_i), j = 1..D_i (f = id or (1 - cos(pi x))/2), hence exactly one control call on each of the 1 + sum D_i ticks and none after; each point is hit exactly (cos pi = -1), values stay between the segment's end points (-1 <= cos <= 1), zero-length points contribute no tick (jump), non-numeric fields and numeric fields equal at both ends are emitted unchanged, and a segment with a non-control end raises InvalidEventException without a call; durations within 5e-9 of a whole number of ticks count as that number. The model is a transcription of PInterpolate.__next__, PDict.__next__ and the interpolating branch of Track.tick as state machines and is tied to the repository on every run: several hundred tracks (8 resolutions, 2-8 points, rising/falling ints and floats, segment lengths 0/1/2/5/29/57/N/3N, float-awkward durations, quantize/delay/count, looping patterns, string controls, mixed-in non-control events) are run on a real Timeline tick by tick and every control() call (tick index exact; values exact where the exact value is a double, else 1e-9) is compared inside Coq (vm_compute) with the model's trace; an independent closed-form oracle in Fractions judges each implementation trace and supplies the failing input. Second round - the timeline's resolution is re-configured AFTER the track was scheduled (timeline.ticks_per_beat = n, timeline.clock_source = <clock with another resolution>, timeline.clock_source.ticks_per_beat = n; before the track's first tick - started at once or by quantize/delay -, between two segments, on a planning tick, in the middle of a segment; once or twice; finer, coarser, multiples, divisors, the same value): Sched/InterpRetime.v carries the resolution in the state of a history of ticks and changes (rt_trace; runv = tick k made at the resolution R k, R arbitrary) and the theorems C15_retime_* prove for EVERY such history that a segment is planned with D = round(duration x the resolution in force on its planning tick) steps (the first segment on the track's first tick, every later one on the tick after its starting point was sent), sends one message per tick, follows the curve formula with that D, hits its end point exactly and keeps its plan whatever the resolution does while it is under way (C15_retime_plan_kept); about a hundred such tracks are run on a real Timeline, judged by the oracle (D_i = duration_i x the resolution in force when segment i begins) and compared with the model (timeline_runv, in which the timeline's time advances by exactly one tick of the resolution in force, as the repaired Timeline.tick does: no snapping onto the new grid). Segments longer than any internal limit of the library (duration * ticks_per_beat >= Pattern.LENGTH_MAX, the constant read from the source under test): the theorems hold for every segment length; C15_trace_at ties the track to the pointwise closed form spec_at (Sched/InterpAt.v), and every run drives two tracks with a segment of LENGTH_MAX ticks or more (first segment / later segment, linear / cosine), every tick judged by the closed-form oracle, the number of calls, the values around LENGTH_MAX ticks into the segment, at its end and at the later points and the silence after compared with spec_at.",
  "note": "Trusted: Coq kernel + VM; the Python harness; libm: cos(pi x) is taken from math.cos (a table of the values the run needs is handed to the model; the theorems assume only cos(pi*1) = -1 and -1 <= cos <= 1); IEEE double arithmetic of a + dt*(n+1)/D is validated by the exact/1e-9 comparison, not modelled bit by bit. Modelled not verified: Event construction and defaults (event.py) enter as data; the start tick (quantize/delay) is transcribed from Track.update/_schedule_action but its properties belong to the scheduling properties. Resolution changes: the oracle abstains when a change falls between the tick of a control point and the next tick (the text does not say which segment it belongs to; the model, like the code, plans the new segment with the new resolution); a deferred start after a change is judged exactly (beats elapse at 1 / the resolution in force per tick; exact arithmetic - that the float clock of advance_on_tick_grid stays within rounding error of it is Base/FloatGrid.v retick_run_exact, not part of this cone). Not covered: changes made from inside a tick (by another track's event), output-device clock multipliers after a change, real clocks and tempo. Not covered: INTERPOLATION_NONE branch, muted/inactive events, tracks whose numeric field is missing in the next point (model: OErr).",
 }
 
 NS = [1, 7, 10, 24, 96, 100, 480, 1000]
 TOL = Fraction(1, 10 ** 9)
 
-EXTRA_TARGETS = ["Sched/InterpCheck.vo"]
+EXTRA_TARGETS = ["Sched/InterpCheck.vo", "Sched/InterpLongCheck.vo"]
+EXTRA_GENERATORS = ["gen_tables_pat.py"]      # Generated/TablesPat.v: Pattern.LENGTH_MAX of the source under test (long-segment stratum)
 
 HEADER = """From Isobar Require Import Base.Prelude Sched.Interp Sched.InterpRetime Sched.InterpCheck.
 From Coq Require Import QArith String Uint63.
@@ -837,6 +838,122 @@ def run_cases(run, cases, info):
     return results
 
 
+# ---- segments longer than any internal limit of the library -------------------------------------------------------
+# The dimension: duration * ticks_per_beat >= Pattern.LENGTH_MAX (read from Generated/TablesPat.v, regenerated from the source
+# under test by the build step).  The oracle judges EVERY tick by the closed form of the property text; the model is read at
+# chosen ticks through the pointwise closed form spec_at (Sched/InterpAt.v, C15_trace_at) - around LENGTH_MAX ticks into the
+# long segment, at its end, at the later points, at the end of the track - plus the number of calls and the silence after.
+HEADER_LONG = HEADER.replace("Sched.InterpCheck.", "Sched.InterpCheck Sched.InterpProofs Sched.InterpAt Sched.InterpLongCheck.")
+
+
+def length_max():
+    import re
+    m = re.search(r"Definition LENGTH_MAX : Z := (\d+)\.", open(os.path.join(COQDIR, "Generated", "TablesPat.v")).read())
+    if not m:
+        raise CheckError("Generated/TablesPat.v carries no LENGTH_MAX")
+    return int(m.group(1))
+
+
+def make_long_case(rng, lm, which):
+    """which = 0: the FIRST segment is the long one (D + 1 values needed), linear, 480 PPQN; 1: a LATER segment is long
+    (1 skipped + D values), cosine, 96 PPQN, deferred start"""
+    N, mode = (480, "linear") if which == 0 else (96, "cosine")
+    c = {"stratum": "long", "N": N, "mode": mode, "pre": 0, "quantize": None, "delay": None, "count": None,
+         "ignore_exceptions": False, "form": "dict", "loop": False, "changes": [],
+         "control": rng.randint(0, 127), "channel": rng.randint(0, 15), "long": lm}
+    extra = rng.randint(1, 1700)
+    D = (-(-(lm + extra) // N)) * N                      # a whole number of beats, > LENGTH_MAX ticks
+    if which == 1:
+        D = lm                                           # exactly LENGTH_MAX ticks: the smallest segment that is too long
+    mk_pt = lambda v, d: {"kind": "control", "value": v, "D": d, "dur": d / N}
+    short = [rng.choice([1, 7, N // 4, N]) for _ in range(3)]
+    vals = [rng.randint(0, 127) for _ in range(5)]
+    if which == 0:
+        c["points"] = [mk_pt(vals[0], D), mk_pt(vals[1], short[0]), mk_pt(vals[2], short[1]), mk_pt(vals[3], 0)]
+    else:
+        c["points"] = [mk_pt(vals[0], short[0]), mk_pt(vals[1], D), mk_pt(vals[2], short[1]), mk_pt(vals[3], short[2]), mk_pt(vals[4], 0)]
+        c["pre"], c["quantize"] = 3, 1
+    return c
+
+
+def long_sample_ticks(case, t0, lm):
+    pts = case["points"]
+    T = [t0]
+    for p in pts[:-1]:
+        T.append(T[-1] + p["D"])
+    want = set()
+    for t in T:
+        want.update(range(t - 2, t + 3))
+    for i, p in enumerate(pts[:-1]):
+        if p["D"] >= lm:
+            want.update(range(T[i] + lm - 4, T[i] + lm + 3))
+            want.update([T[i] + p["D"] // 2, T[i] + p["D"] // 3])
+    return sorted(t for t in want if t0 <= t <= T[-1]), [T[-1] + 1, T[-1] + 2, T[-1] + 3], T
+
+
+def run_long_cases(run, cases, info):
+    lm = cases[0]["long"]
+    for c in cases:
+        set_nticks(c, info)
+    outs = run.impl_parallel("c15_impl", [{"cases": [payload_of(c)]} for c in cases])
+    terms, meta = [], []
+    for c, out in zip(cases, outs):
+        r = out["cases"][0]
+        run.count(c["nticks"])
+        run.dist("stratum.long")
+        run.dist("long.%s-segment-is-long.%s.N%d" % ("first" if c["points"][0]["D"] >= lm else "later", c["mode"], c["N"]))
+        run.dist("long.segment>=LENGTH_MAX" if max(p["D"] for p in c["points"]) >= lm else "long.segment<LENGTH_MAX")
+        bad, clause = oracle(c, r, info)
+        run.cov["oracle_evaluations"] += len(r["calls"]) + 1
+        run.dist("oracle." + clause)
+        run.nontrivial(json.dumps(payload_of(c), sort_keys=True))
+        for kind, tick, detail in bad:
+            run.violation({"kind": kind, "site": "interpolated-track"}, {
+                "case": c, "tick": tick, "observed": detail, "oracle": "closed-form curve from the property text (Fractions), every tick of the run",
+                "calls_near": [[x[0], dec(x[1]), dec(x[2]), dec(x[3])] for x in r["calls"] if tick is not None and abs(x[0] - tick) <= 2],
+                "exception": r["exc"], "n_calls": len(r["calls"]), "python": snippet(c)})
+        if bad or r["exc"] is not None or r["other"]:
+            continue
+        t0 = oracle_t0(c)
+        ticks, silent, T = long_sample_ticks(c, t0, lm)
+        by_tick = {x[0]: x for x in r["calls"]}
+        toks = Tokens()
+        chan = c["channel"]
+        evs = ["cev %s %s %s %s" % (fv_in(c["control"], toks), fv_in(p["value"], toks), fv_in(chan, toks), qlit(p["dur"])) for p in c["points"]]
+        samples = []
+        for t in ticks:
+            x = by_tick.get(t)
+            if x is None:
+                continue
+            m, k = mk(dec(x[2]))
+            samples.append("(%d, 0, %s, VNum (dq %d %d), %s)" % (t, fv_out(x[1], toks), m, k, fv_out(x[3], toks)))
+        cos = []
+        if c["mode"] == "cosine":
+            seen = set()
+            for t in ticks:
+                i = max(k for k in range(len(T) - 1) if T[k] < t) if t > t0 else None
+                if i is None:
+                    continue
+                fr = Fraction(t - T[i], c["points"][i]["D"])
+                if fr not in seen:
+                    seen.add(fr)
+                    m, k = mk(math.cos(math.pi * fr.numerator / fr.denominator))
+                    cos.append("centry %d %d %d %d" % (fr.numerator, fr.denominator, m, k))
+        run.cov["long_segment_ticks_compared_with_the_model"] = run.cov.get("long_segment_ticks_compared_with_the_model", 0) + len(samples)
+        terms.append("long_ok %s (cospi_sp [%s]) %d %s [%s] %d %d [%s] %s" % (
+            blit(c["mode"] == "linear"), "; ".join(cos), c["N"], "Linear" if c["mode"] == "linear" else "Cosine", "; ".join(evs),
+            t0, len(r["calls"]), "; ".join(samples), zlist([t for t in silent if t not in by_tick and t < c["nticks"]])))
+        meta.append(c)
+    src = HEADER_LONG
+    failing = run.coq_failing(src, terms, chunk=1, jobs=4)
+    run.cov["traces_validated_against_impl"] += len(terms) - len(failing)
+    for i in failing:
+        run.violation({"kind": "correspondence", "site": "interpolated-track", "stratum": "long"}, {
+            "broken": "correspondence between the closed form spec_at (Sched/InterpAt.v, C15_trace_at) and Track.tick/PInterpolate on a segment of more than "
+                      "LENGTH_MAX ticks (number of calls, values at the ticks around LENGTH_MAX, at the segment's end and at the later points, silence after)",
+            "case": meta[i], "coq_term": terms[i][:3000], "python": snippet(meta[i])}, found_input=False)
+
+
 def check(run):
     info = run.impl("c15_impl", {"info": True})
     if info.get("linear") != "linear" or info.get("cosine") != "cosine":
@@ -862,6 +979,12 @@ def check(run):
             cases.append(make_case(rng, stratum, N=N, mode=mode))
     for i in range(0, len(cases), 500):
         run_cases(run, cases[i:i + 500], info)
+    # segments of LENGTH_MAX ticks and more (the constant of the source under test)
+    lm = run.cov["LENGTH_MAX"] = length_max()
+    if lm <= 200000:
+        run_long_cases(run, [make_long_case(rng, lm, w) for w in ([0, 1] if run.tier == "quick" else [0, 1, 0, 1, 0])], info)
+    else:
+        run.discard("Pattern.LENGTH_MAX = %d: a segment beyond the limit is too long for this check" % lm)
     run.cov["exhaustive"] = False
     run.cov["rule"] = ("one case = one interpolated track on its own Timeline, ticked manually from tick 0 to 4 ticks past the expected end; "
                        "evaluations = ticks executed; distinct by the full schedule() payload; non-trivial = at least one control call or an exception. "
